@@ -113,3 +113,14 @@ Theorem C03_source_thin_bodies :
   thin_of "ArrayConsumer<T,N>" "new" = Some "ArrayConsumer { array : ManuallyDrop :: new (array) , position : 0 , }" /\
   thin_of "ArrayConsumer<T,N>" "iter_position" = Some "(self . array . iter () , & mut self . position)".
 Proof. repeat split. Qed.
+
+(* the builders' endings and the owning builder's extend, as they stand in src/internal.rs now *)
+From GA Require Import CollectTie.
+From GAGen Require Import GenCollect.
+Theorem C03_source_builder_endings :
+  small_of "ArrayBuilder" "assume_init" =
+    Some ["debug_assert ! (self . is_full ()) ;"; "let array = ptr :: read (& self . array) ;";
+          "mem :: forget (self) ;"; "GenericArray :: assume_init (array)"] /\
+  small_of "IntrusiveArrayBuilder" "finish" = Some ["debug_assert ! (self . is_full ()) ;"; "mem :: forget (self)"] /\
+  gen_array_builder_extend = gen_extend.
+Proof. exact (conj (proj1 tie_builder_endings) (conj (proj2 tie_builder_endings) tie_array_builder_extend)). Qed.
